@@ -284,8 +284,25 @@ def build(case):
             cd["ic"] = None
         if base != "ode" and terms.get("boundary"):
             # `bdim`: the component the condition applies to (omega_boundary_dim), None = all components
-            cd["boundary"] = {"f": [rand_poly(rng, din, 1, 2) for _ in range(m)], "border": border,
-                              "dim": terms.get("bdim") if m > 1 else None}
+            bdim = terms.get("bdim") if m > 1 else None
+            fold = [rand_poly(rng, din, 1, 2) for _ in range(m)]
+            comps = list(range(m)) if bdim is None else [bdim]
+            bc = terms.get("bc", "dirichlet")
+            if bc != "dirichlet" and m > 1 and bdim is None:
+                bdim, comps = 0, [0]          # a Neumann condition applies to one component
+            nfac = 2 * d
+            if bc == "dirichlet":
+                facets = [{"cond": "dirichlet", "f": [fold[c] for c in comps]}] * nfac
+            elif bc == "neumann":
+                facets = [{"cond": "neumann", "f": [rand_poly(rng, din, 1, 2)]}] * nfac
+            else:
+                # per-facet dictionaries: each facet its own condition (or none) and its own function
+                conds = [rng.choice(["dirichlet", "neumann", None]) for _ in range(nfac)]
+                conds[rng.randrange(nfac)] = "neumann"
+                facets = [{"cond": c, "f": None if c is None else
+                           [rand_poly(rng, din, 1, 2) for _ in range(len(comps) if c == "dirichlet" else 1)]}
+                          for c in conds]
+            cd["boundary"] = {"border": border, "dim": bdim, "facets": facets, "per_facet": bc == "per_facet"}
         else:
             cd["boundary"] = None
         if base == "statio" and terms.get("norm"):
@@ -471,10 +488,24 @@ def single_json(pr, u, weights, with_dyn, param_rows_json, unit=False):
     if cd["boundary"] is not None:
         n = din + K
         subs_f = [P.var(n, j) for j in range(din)]
-        comps = range(m) if cd["boundary"]["dim"] is None else [cd["boundary"]["dim"]]
-        f = [pr["nets"][u][c] - compose(cd["boundary"]["f"][c], subs_f, n) for c in comps]
-        nfac = 2 * pr["d"]
-        for fa in range(nfac):
+        comps = list(range(m)) if cd["boundary"]["dim"] is None else [cd["boundary"]["dim"]]
+        d_ = pr["d"]
+        off = din - d_                      # index of the first space coordinate
+        # outward unit normals of the facets xmin, xmax[, ymin, ymax]
+        normals = [[-1], [1]] if d_ == 1 else [[-1, 0], [1, 0], [0, -1], [0, 1]]
+        for fa, spec in enumerate(cd["boundary"]["facets"]):
+            if spec["cond"] is None:
+                continue
+            fpol = [compose(p, subs_f, n) for p in spec["f"]]
+            if spec["cond"] == "dirichlet":
+                f = [pr["nets"][u][c] - fpol[i] for i, c in enumerate(comps)]
+            else:
+                # Von Neumann: the outward normal derivative of the selected component
+                c = comps[0]
+                dn = P(n)
+                for j in range(d_):
+                    dn = dn + pr["nets"][u][c].d(off + j) * normals[fa][j]
+                f = [dn - fpol[0]]
             xs = [[q(cd["boundary"]["border"][i][j][fa]) for j in range(din)] for i in range(B)]
             s["boundary"].append({"w": q(w("boundary_loss")), "xs": xs, "f": pv(f)})
     if cd["norm"] is not None:
@@ -711,16 +742,23 @@ def make_world(case, pr=None):
                 kw["initial_condition"] = None
         else:
             if cd["boundary"] is not None:
-                fpol = cd["boundary"]["f"]
-                if cd["boundary"]["dim"] is not None:
-                    fpol = [fpol[cd["boundary"]["dim"]]]
-                kw["omega_boundary_dim"] = cd["boundary"]["dim"]
-                if base == "statio":
-                    kw["omega_boundary_fun"] = lambda dx, fpol=fpol: jnp.stack([jpoly(p, dx) for p in fpol])
+                def bfun(fpol):
+                    if base == "statio":
+                        return lambda dx, fpol=fpol: jnp.stack([jpoly(p, dx) for p in fpol])
+                    return lambda t, dx, fpol=fpol: jnp.stack([jpoly(p, jnp.concatenate([t, dx])) for p in fpol])
+
+                cname = {"dirichlet": "dirichlet", "neumann": "von neumann", None: None}
+                bd = cd["boundary"]
+                if not bd["per_facet"]:
+                    kw["omega_boundary_fun"] = bfun(bd["facets"][0]["f"])
+                    kw["omega_boundary_condition"] = cname[bd["facets"][0]["cond"]]
+                    kw["omega_boundary_dim"] = bd["dim"]
                 else:
-                    kw["omega_boundary_fun"] = lambda t, dx, fpol=fpol: jnp.stack(
-                        [jpoly(p, jnp.concatenate([t, dx])) for p in fpol])
-                kw["omega_boundary_condition"] = "dirichlet"
+                    fnames = ["xmin", "xmax", "ymin", "ymax"][: 2 * d]
+                    kw["omega_boundary_fun"] = {nm: (None if sp["cond"] is None else bfun(sp["f"]))
+                                                for nm, sp in zip(fnames, bd["facets"])}
+                    kw["omega_boundary_condition"] = {nm: cname[sp["cond"]] for nm, sp in zip(fnames, bd["facets"])}
+                    kw["omega_boundary_dim"] = None if bd["dim"] is None else {nm: bd["dim"] for nm in fnames}
             else:
                 kw["omega_boundary_fun"] = None
                 kw["omega_boundary_condition"] = None
@@ -917,6 +955,11 @@ def gen_cases(rng, tier):
                             het[n] = "none"
                     if rng.random() < 0.3:
                         het["zz"] = "fn"
+                if terms["boundary"]:
+                    # Dirichlet / Von Neumann, one specification for all facets or per-facet dictionaries; the
+                    # border batch has as many rows as the parameter batch
+                    terms["bc"] = rng.choice(["dirichlet", "neumann", "neumann", "per_facet", "per_facet"])
+                    terms["bdim"] = rng.choice([None, 0, 1])
                 c = dict(kind=kind, d=rng.choice([1, 2]), m=rng.choice([1, 2]), keys=keys, batched=sub, B=B,
                          obs=obs, het=het, terms=terms, malformed=None)
                 if het is None and not kind.startswith("sys_") and rng.random() < 0.6:
@@ -1114,8 +1157,11 @@ def tags(case, obs):
     o = obs["observed"]
     out.append("impl=" + ("error:" + o["error"] if "error" in o else "value"))
     for t, on in case["terms"].items():
-        if on:
+        if on and t not in ("bc", "bdim"):
             out.append(f"term={t}")
+    if case["terms"].get("boundary"):
+        out.append("boundary=" + case["terms"].get("bc", "dirichlet") + (f",d={case.get('d')}")
+                   + (",param_batch" if case.get("batched") else ""))
     return out
 
 
